@@ -106,6 +106,20 @@ def run(c: Check):
                     or t not in reach(p["exp_a"], p["node"]) or t not in reach(p["exp_b"], p["node"])):
                 c.count("edit-had-no-effect")
                 continue
+            # the recorded finding (a task marking one of its OWN parameters: identifiers cached at its submission
+            # predate the mark) reaches this oracle when the compared node was sealed by that very submission, i.e.
+            # when it is reachable from the task (pre-tasks, init tasks, parameters)
+            def reach_all(e, r):
+                seen, todo = set(), [r]
+                while todo:
+                    m = todo.pop()
+                    if m in seen or m >= len(e["nodes"]):
+                        continue
+                    seen.add(m)
+                    todo.extend(identgen._export_succs(e["nodes"][m]))
+                return seen
+            if p["a"]["nodes"][t]["cls"] == "TaskSelf" and p["node"] in reach_all(p["exp_a"], t):
+                p["kind"] = "upstream-task:task-marks-own-parameter"
         # guard: the edit may have been neutralised by the build (e.g. value coerced); only count real changes
         elif p["exp_a"]["nodes"][p["node"]] == p["exp_b"]["nodes"][p["node"]] and p["which"] == "raw" \
                 and p["exp_a"]["classes"][p["exp_a"]["nodes"][p["node"]]["cls"]] == p["exp_b"]["classes"][p["exp_b"]["nodes"][p["node"]]["cls"]]:
@@ -113,7 +127,8 @@ def run(c: Check):
             continue
         if p["which"] == "full":
             na, nb = p["exp_a"]["nodes"][p["node"]], p["exp_b"]["nodes"][p["node"]]
-            ida = lambda e, l: [json.dumps(e["nodes"][i], sort_keys=True) for i in l]
+            # (pre-tasks and init tasks of a lightweight task are not part of ITS raw identifier)
+            ida = lambda e, l: [json.dumps(dict(e["nodes"][i], pre=[], init=[], craw=None, cfull=None, sealed=None), sort_keys=True) for i in l]
             if (ida(p["exp_a"], na["init"]) == ida(p["exp_b"], nb["init"])
                     and sorted(ida(p["exp_a"], na["pre"])) == sorted(ida(p["exp_b"], nb["pre"]))):
                 c.count("edit-had-no-effect")     # e.g. the task had already been submitted, or identical init tasks
